@@ -74,6 +74,8 @@ type harness struct {
 	cfg hx.Config
 	r   *hx.Run
 	rnd *hx.Rand
+
+	tarfsAllocMax uint64
 }
 
 // quiet silences the library's logging (malformed inputs make it chatty).
@@ -150,6 +152,7 @@ func (h *harness) replayLine(line string) {
 		h.opPnum(b)
 	case "seg":
 		h.opSeg(b, "corpus")
+		h.opTarfs(b, "corpus")
 	case "rpmhdr":
 		h.opRpmHdr(b, "corpus")
 	case "bdb":
@@ -251,11 +254,20 @@ func (h *harness) segStream() {
 	n := h.cfg.N(700, 20000)
 	for i := 0; i < n && !h.r.Stop(); i++ {
 		base := genTar(h.rnd, 6)
+		if h.rnd.Chance(1, 3) {
+			// colliding names and links: the interesting input of add/walkTo/Open
+			lt := genLinkTar(h.rnd)
+			h.opSeg(lt, "links")
+			h.opTarfs(lt, "links")
+			continue
+		}
 		if h.rnd.Chance(1, 6) {
 			h.opSeg(base, "wellformed")
+			h.opTarfs(base, "wellformed")
 			continue
 		}
 		m, how := mutateTar(h.rnd, base)
 		h.opSeg(m, how)
+		h.opTarfs(m, how)
 	}
 }
